@@ -5,7 +5,7 @@ import os
 from . import rule, info
 from ..program import AnalysisError, src, norm, ClassInfo
 from ..tables import EAGER_CONSUMERS
-from ..util import (is_name, calls_in, callee_qual, deref, ancestors, stmt_of, parent, evaluator_calls, kwarg)
+from ..util import (polarity, exclusive, is_name, calls_in, callee_qual, deref, ancestors, stmt_of, parent, evaluator_calls, kwarg)
 from .common import option_usage
 
 info('C17',
@@ -413,3 +413,150 @@ def no_state_in_builders(ctx):
             ctx.ob(True, u, 'callback of %s.%s keeps no build-time state' % (top.cls.name, top.name))
     if n < 15:
         raise AnalysisError('C17.9: only %d builder callbacks found (floor 15)' % n)
+
+
+_BUILTIN_ARITY = {   # positional capacity of the C-implemented combinators (None: unbounded)
+    'itertools.islice': 4, 'itertools.takewhile': 2, 'itertools.dropwhile': 2, 'itertools.chain.from_iterable': 1,
+    'builtins.map': None, 'builtins.filter': 2,
+}
+
+
+def _boltons_signature(name):
+    """(max positional arguments or None, keyword names or None when **kw) of a boltons.iterutils
+    function, read from the installed source (the resolved program includes its dependencies)"""
+    import importlib.util
+    spec = importlib.util.find_spec('boltons.iterutils')
+    if spec is None or not spec.origin:
+        raise AnalysisError('boltons.iterutils source not found')
+    tree = ast.parse(open(spec.origin).read())
+    for n in tree.body:
+        if isinstance(n, ast.FunctionDef) and n.name == name:
+            a = n.args
+            pos = None if a.vararg else len(a.posonlyargs) + len(a.args)
+            kws = None if a.kwarg else {x.arg for x in a.args + a.kwonlyargs}
+            return pos, kws
+    raise AnalysisError('boltons.iterutils.%s not found' % name)
+
+
+@rule('C17.11')
+def combinator_calls(ctx):
+    """each stage hands its own parameters, as given, to the combinator it stands for, in a call
+    the combinator's signature accepts: (a) a local passed on is only a display / keyword table
+    of parameters, never a value recomputed from one (frozenset(sep) splits a string separator
+    into characters); (b) the positional and keyword arguments fit the callee (chunked_iter takes
+    fill by keyword only)"""
+    p = ctx.program
+    c = ctx.cls('streaming.Iter')
+    n = 0
+    for name, (comb, kind) in sorted(STAGES.items()):
+        m = c.methods[name]
+        mcfg = ctx.cfg(m)
+        add = [x for x in calls_in(m) if isinstance(x.func, ast.Attribute) and x.func.attr == '_add_op'][0]
+        cb = add.args[2]
+        if not isinstance(cb, ast.Lambda):
+            continue
+        lu = p.unit_of(cb)
+        calls = [x for x in ast.walk(cb.body) if isinstance(x, ast.Call) and callee_qual(p, lu, x) == comb]
+        ctx.ob(len(calls) == 1, m, 'stage %s calls %s once' % (name, comb))
+        if len(calls) != 1:
+            continue
+        call = calls[0]
+        params = set(m.params[1:]) | ({m.vararg} if m.vararg else set()) | ({m.kwarg} if m.kwarg else set())
+        lam_params = {a.arg for a in cb.args.args}
+        inner_bound = {a.arg for x in ast.walk(cb.body) if isinstance(x, ast.Lambda) for a in x.args.args}
+        # (a) locals handed on are tables of parameters
+        for x in ast.walk(call):
+            if not (isinstance(x, ast.Name) and isinstance(x.ctx, ast.Load)):
+                continue
+            if x.id in params or x.id in lam_params or x.id in inner_bound or x.id not in m.locals:
+                continue
+            if name == 'filter':
+                continue      # key -> Check(key, default=SKIP): decided by its own obligations in C17.6
+            n += 1
+
+            def table(e):
+                if isinstance(e, (ast.Constant,)):
+                    return True
+                if isinstance(e, ast.Name):
+                    return e.id in params or e.id == x.id
+                if isinstance(e, (ast.Tuple, ast.List)):
+                    return all(table(y) for y in e.elts)
+                if isinstance(e, ast.Dict):
+                    return all(k is not None and table(k) for k in e.keys) and all(table(v) for v in e.values)
+                if isinstance(e, ast.IfExp):
+                    return table(e.body) and table(e.orelse)
+                if isinstance(e, ast.BinOp) and isinstance(e.op, ast.Add):
+                    return table(e.left) and table(e.right)
+                return False
+            defs = [s for s in m.own_nodes() if isinstance(s, (ast.Assign, ast.AugAssign)) and any(
+                (isinstance(t, ast.Name) and t.id == x.id) or (isinstance(t, ast.Subscript) and is_name(t.value, x.id))
+                for t in (s.targets if isinstance(s, ast.Assign) else [s.target]))]
+            bad = [norm(s)[:60] for s in defs if not table(s.value)]
+            ctx.ob(bool(defs) and not bad, m, 'stage %s hands %s on as a table of its parameters' % (name, x.id),
+                   '' if not bad else 'recomputed from a parameter: %s' % bad, node=call)
+        # (b) the call fits the callee
+        if comb.startswith('boltons.iterutils.'):
+            cap, kws = _boltons_signature(comb.rsplit('.', 1)[1])
+        else:
+            cap, kws = _BUILTIN_ARITY.get(comb, None), None
+        npos = 0
+        unknown = False
+        for a in call.args:
+            if isinstance(a, ast.Starred):
+                if is_name(a.value) and a.value.id == m.vararg:
+                    unknown = True
+                    continue
+                lens = set()
+                vals = [v for _, v in mcfg.reaching_defs(mcfg.node_containing(add), a.value.id)] if is_name(a.value) else [a.value]
+                for v in vals:
+                    if isinstance(v, (ast.Tuple, ast.List)):
+                        lens.add(len(v.elts))
+                    else:
+                        unknown = True
+                # later ``args += (x,)`` extensions
+                if is_name(a.value):
+                    for s in m.own_nodes():
+                        if isinstance(s, ast.AugAssign) and is_name(s.target, a.value.id) and isinstance(s.value, ast.Tuple):
+                            lens = lens | {l + len(s.value.elts) for l in lens}
+                npos += max(lens) if lens else 0
+            else:
+                npos += 1
+        n += 1
+        ok = cap is None or unknown or npos <= cap
+        ctx.ob(ok, m, 'stage %s: %s takes at most %s positional arguments, the call passes up to %d' % (name, comb, cap, npos),
+               '' if ok else 'TypeError at evaluation when every optional argument is given', node=call)
+        if kws is not None:
+            given = [k.arg for k in call.keywords if k.arg is not None]
+            bad = sorted(set(given) - kws)
+            ctx.ob(not bad, m, 'stage %s: keywords %s exist in %s' % (name, given, comb), '' if not bad else str(bad), node=call)
+    # chunked: the fill value is handed on exactly when one was given
+    m = c.methods['chunked']
+    mcfg = ctx.cfg(m)
+    fillp = 'fill' if 'fill' in m.params else None
+    stores = [x for x in mcfg.nodes if x.kind == 'stmt' and fillp and isinstance(x.ast, ast.Assign)
+              and isinstance(x.ast.targets[0], ast.Subscript) and is_name(x.ast.value, fillp)]
+    ok = False
+    if len(stores) == 1:
+        # keyword table extended under the test
+        for t in mcfg.nodes:
+            if t.kind == 'test':
+                pol = polarity(t.ast, '%s is not _MISSING' % fillp)
+                if pol and stores[0] in exclusive(mcfg, t, pol):
+                    ok = True
+    elif not stores and fillp:
+        # two tables, chosen by the test (however the choice is written)
+        from ..util import choice_values
+        addn = mcfg.node_containing([x for x in calls_in(m) if isinstance(x.func, ast.Attribute) and x.func.attr == '_add_op'][0])
+        kwn = [k.value.id for x in ast.walk(addn.ast) if isinstance(x, ast.Call) for k in x.keywords if k.arg is None and is_name(k.value)]
+        for name in kwn:
+            cv = choice_values(mcfg, addn, name, '%s is _MISSING' % fillp)
+            if cv and len(cv[0]) == 1 and len(cv[1]) == 1:
+                def keys(txt):
+                    e = ast.parse(txt, mode='eval').body
+                    return {k.value for k in e.keys if isinstance(k, ast.Constant)} if isinstance(e, ast.Dict) else None
+                k_missing, k_given = keys(cv[0][0]), keys(cv[1][0])
+                ok = k_missing is not None and k_given is not None and 'fill' not in k_missing and 'fill' in k_given
+    ctx.ob(ok, m, 'chunked passes fill on exactly when it was given (otherwise the last chunk stays short)',
+           '' if ok else 'the _MISSING marker itself would pad the last chunk')
+    ctx.require(n >= 8, 'combinator calls not found (%d)' % n)
+    ctx.floor(8)
